@@ -18,6 +18,13 @@
 // derived classes ...) and the set H of categories it is the C++ target for (the correspondence of the property
 // statement: int -> integer types, float -> floating types, str -> string types, instance -> class or base class,
 // None -> nullptr_t; Python's bool is an int, the C++ bool parameter is a pure catch-all and is home to nothing).
+// Rule: a must be tried before b if some category of H(a) is in A(b) but not in H(b), or if H(a) is a non-empty strict
+// subset of H(b).  A and H are reference data of the harness (assumption of the catalogue entry).
+//
+// Symbolic: the CONTENT of the fundamental types (every CPPSimpleType kind and flag combination a parameter can have, in
+// two independent families X and Y) and the pair of universe entries compared; the SHAPE of a type (plain, const,
+// typedef, pointer, reference, class, enum) is concrete -- a symbolic CPPType pointer turns every virtual call of the
+// classification into a fan-out over all linked implementations.
 #include "verif.h"
 #include "functionRemap.h"
 #include "parameterRemap.h"
@@ -50,12 +57,30 @@ bool mangle_names = true;     // defined in interrogate.cxx (a main file, never 
 // ---- Python argument categories ---------------------------------------------------------------------------------
 enum { C_BOOL = 1, C_INT = 2, C_FLOAT = 4, C_STR = 8, C_BYTES = 16, C_NONE = 32, C_CLS = 64, C_DER = 128, C_ENUM = 256,
        C_OTHER = 512, C_ALL = 1023 };
+#define INTS (C_INT | C_BOOL)
+#define NUMS (C_INT | C_BOOL | C_FLOAT)
+#define INST (C_CLS | C_DER)
 
 // ---- the type universe --------------------------------------------------------------------------------------------
-enum { T_BOOL, T_CBOOL, T_TDBOOL, T_INT, T_CINT, T_UINT, T_LONG, T_SHORT, T_LLONG, T_ULLONG, T_ENUM, T_SENUM, T_DOUBLE,
-       T_CDOUBLE, T_FLOAT, T_CHAR, T_CCHARP, T_STRING, T_CSTRREF, T_CLSP, T_CCLSREF, T_CLSVAL, T_DERP, T_NULLPTR, T_INTP, NT };
-static CPPType *U[NT];
-static int ACC[NT], HOME[NT];
+// Entries 0..2 wrap a CPPSimpleType whose CONTENT (_type, _flags) is symbolic: every fundamental type at once (bool, char,
+// signed/unsigned char, wchar_t, char8/16/32_t, [unsigned] short/int/long/long long, float, double, long double,
+// nullptr_t), plain, const-qualified and behind a typedef.  The other entries are concrete compound types.
+// There are two such families X and Y (independent symbolic contents) for the two overloads of a pair.
+#ifndef WITH_CREF
+#define WITH_CREF 0      // 1: also "const T &" of the fundamental type (catalogue entry c02_type_rank_cref: fails, see there)
+#endif
+enum { E_VAL, E_CONST, E_TYPEDEF,
+#if WITH_CREF
+       E_CREF,
+#endif
+       NFAM,
+       E_ENUM = NFAM, E_SENUM, E_CCHARP, E_STRING, E_CSTRREF, E_CLSP, E_CCLSREF, E_CLSVAL, E_DERP, E_INTP, NE };
+struct Family {
+  CPPSimpleType *simple;
+  CPPType *type[NE];
+  int acc[NE], home[NE];
+};
+static Family FX, FY;
 static CPPStructType *g_string_type;
 
 // cut points (see the head comment)
@@ -81,50 +106,97 @@ static NOINL CPPEnumType *make_enum(const char *name, CPPExtensionType::Type t) 
   CPPScope *scope = new CPPScope(nullptr, CPPNameComponent(std::string(name)), V_public);
   return new CPPEnumType(t, ident, nullptr, scope, CPPFile());
 }
-static NOINL void def(int t, CPPType *type, int acc, int home) { U[t] = type; ACC[t] = acc; HOME[t] = home; }
+static NOINL void def(Family *f, int e, CPPType *type, int acc, int home) { f->type[e] = type; f->acc[e] = acc; f->home[e] = home; }
 
-static NOINL void build_universe() {
-  CPPType *b = new CPPSimpleType(CPPSimpleType::T_bool);
-  CPPType *i = new CPPSimpleType(CPPSimpleType::T_int);
-  CPPType *d = new CPPSimpleType(CPPSimpleType::T_double);
-  CPPType *c = new CPPSimpleType(CPPSimpleType::T_char);
+// what the generated extraction of a fundamental parameter type accepts / is the C++ target of (write_function_instance:
+// is_bool -> PyObject_IsTrue; is_nullptr -> arg == Py_None; is_char -> 's#' of length 1; is_wchar -> 'U'; every other
+// integer -> PyLong_Check / 'i' 'l' 'k' 'L' 'K' 'h'; is_double / is_float -> PyNumber_Check / 'd' 'f')
+static NOINL void simple_kind(int type, int flags, int *acc, int *home) {
+  switch (type) {
+  case CPPSimpleType::T_bool: *acc = C_ALL; *home = 0; break;
+  case CPPSimpleType::T_nullptr: *acc = C_NONE; *home = C_NONE; break;
+  case CPPSimpleType::T_char: if (flags == 0) { *acc = C_STR; *home = C_STR; } else { *acc = INTS; *home = C_INT; } break;
+  case CPPSimpleType::T_wchar_t: *acc = C_STR; *home = C_STR; break;
+  case CPPSimpleType::T_float: case CPPSimpleType::T_double: *acc = NUMS; *home = C_FLOAT; break;
+  default: *acc = INTS; *home = C_INT; break;        // T_int, T_char8_t, T_char16_t, T_char32_t
+  }
+}
+static NOINL bool valid_kind(int type, int flags) {
+  const int L = CPPSimpleType::F_long, LL = CPPSimpleType::F_longlong, S = CPPSimpleType::F_short, U = CPPSimpleType::F_unsigned,
+            SG = CPPSimpleType::F_signed;
+  switch (type) {
+  case CPPSimpleType::T_int: {
+    int size = flags & (L | LL | S), sign = flags & (U | SG);
+    return (flags & ~(L | LL | S | U | SG)) == 0 && (size == 0 || size == L || size == LL || size == S) && sign != (U | SG);
+  }
+  case CPPSimpleType::T_char: return flags == 0 || flags == U || flags == SG;
+  case CPPSimpleType::T_double: return flags == 0 || flags == L;
+  case CPPSimpleType::T_bool: case CPPSimpleType::T_wchar_t: case CPPSimpleType::T_char8_t: case CPPSimpleType::T_char16_t:
+  case CPPSimpleType::T_char32_t: case CPPSimpleType::T_float: case CPPSimpleType::T_nullptr:
+    return flags == 0;
+  default: return false;
+  }
+}
+
+static CPPStructType *g_cls, *g_der;
+static CPPType *g_conc[NE], *g_first;
+static NOINL void build_concrete() {
   g_string_type = make_class("string");
-  CPPStructType *cls = make_class("Cls");
-  CPPStructType *der = make_class("Der");
-  der->append_derivation(cls, V_public, false);
-  const int INTS = C_INT | C_BOOL, NUMS = C_INT | C_BOOL | C_FLOAT, INST = C_CLS | C_DER;
-
-  def(T_BOOL, b, C_ALL, 0);                                                   // PyObject_IsTrue: everything
-  def(T_CBOOL, new CPPConstType(b), C_ALL, 0);
-  def(T_TDBOOL, new CPPTypedefType(b, std::string("Flag"), nullptr), C_ALL, 0);
-  def(T_INT, i, INTS, C_INT);                                                 // PyLong_Check / 'i'
-  def(T_CINT, new CPPConstType(i), INTS, C_INT);
-  def(T_UINT, new CPPSimpleType(CPPSimpleType::T_int, CPPSimpleType::F_unsigned), INTS, C_INT);
-  def(T_LONG, new CPPSimpleType(CPPSimpleType::T_int, CPPSimpleType::F_long), INTS, C_INT);
-  def(T_SHORT, new CPPSimpleType(CPPSimpleType::T_int, CPPSimpleType::F_short), INTS, C_INT);
-  def(T_LLONG, new CPPSimpleType(CPPSimpleType::T_int, CPPSimpleType::F_longlong), INTS, C_INT);
-  def(T_ULLONG, new CPPSimpleType(CPPSimpleType::T_int, CPPSimpleType::F_longlong | CPPSimpleType::F_unsigned), INTS, C_INT);
-  def(T_ENUM, make_enum("Mode", CPPExtensionType::T_enum), INTS, C_INT);      // unscoped enum: 'i'
-  def(T_SENUM, make_enum("Kind", CPPExtensionType::T_enum_class), C_ENUM, C_ENUM);   // Dtool_EnumValue_AsLong: objects with .value
-  def(T_DOUBLE, d, NUMS, C_FLOAT);                                            // PyNumber_Check / 'd'
-  def(T_CDOUBLE, new CPPConstType(d), NUMS, C_FLOAT);
-  def(T_FLOAT, new CPPSimpleType(CPPSimpleType::T_float), NUMS, C_FLOAT);
-  def(T_CHAR, c, C_STR, C_STR);                                               // 's#' of length 1
-  def(T_CCHARP, new CPPPointerType(new CPPConstType(c)), C_STR | C_NONE, C_STR);     // 'z'
-  def(T_STRING, g_string_type, C_STR, C_STR);                                 // PyUnicode_AsUTF8AndSize / 's#'
-  def(T_CSTRREF, new CPPReferenceType(new CPPConstType(g_string_type)), C_STR, C_STR);
-  def(T_CLSP, new CPPPointerType(cls), INST, INST);                           // DTOOL_Call_GetPointerThisClass: Cls and subclasses
-  def(T_CCLSREF, new CPPReferenceType(new CPPConstType(cls)), INST, INST);
-  def(T_CLSVAL, cls, INST, INST);
-  def(T_DERP, new CPPPointerType(der), C_DER, C_DER);
-  def(T_NULLPTR, new CPPSimpleType(CPPSimpleType::T_nullptr), C_NONE, C_NONE);     // arg == Py_None
-  def(T_INTP, new CPPPointerType(i), C_BYTES, C_BYTES);                       // PyObject_GetBuffer
+  g_cls = make_class("Cls");
+  g_der = make_class("Der");
+  g_der->append_derivation(g_cls, V_public, false);
+  CPPType *c = new CPPSimpleType(CPPSimpleType::T_char);
+  CPPType *i = new CPPSimpleType(CPPSimpleType::T_int);
+  g_conc[E_ENUM] = make_enum("Mode", CPPExtensionType::T_enum);
+  g_conc[E_SENUM] = make_enum("Kind", CPPExtensionType::T_enum_class);
+  g_conc[E_CCHARP] = new CPPPointerType(new CPPConstType(c));
+  g_conc[E_STRING] = g_string_type;
+  g_conc[E_CSTRREF] = new CPPReferenceType(new CPPConstType(g_string_type));
+  g_conc[E_CLSP] = new CPPPointerType(g_cls);
+  g_conc[E_CCLSREF] = new CPPReferenceType(new CPPConstType(g_cls));
+  g_conc[E_CLSVAL] = g_cls;
+  g_conc[E_DERP] = new CPPPointerType(g_der);
+  g_conc[E_INTP] = new CPPPointerType(i);
+  g_first = new CPPSimpleType(CPPSimpleType::T_nullptr);
+}
+static NOINL void build_family(Family *f, const char *tdname) {
+  int type = nondet_int(), flags = nondet_int();
+  ASSUME(valid_kind(type, flags));
+  CPPSimpleType *x = new CPPSimpleType(CPPSimpleType::T_int);
+  x->_type = (CPPSimpleType::Type)type;                 // symbolic content, concrete object
+  x->_flags = flags;
+  f->simple = x;
+  int acc, home;
+  simple_kind(type, flags, &acc, &home);
+  def(f, E_VAL, x, acc, home);
+  def(f, E_CONST, new CPPConstType(x), acc, home);
+  def(f, E_TYPEDEF, new CPPTypedefType(x, std::string(tdname), nullptr), acc, home);
+#if WITH_CREF
+  def(f, E_CREF, new CPPReferenceType(new CPPConstType(x)), acc, home);     // extraction as for T (ParameterRemapReferenceToConcrete)
+#endif
+  def(f, E_ENUM, g_conc[E_ENUM], INTS, C_INT);                      // unscoped enum: 'i'
+  def(f, E_SENUM, g_conc[E_SENUM], C_ENUM, C_ENUM);                 // Dtool_EnumValue_AsLong: objects with .value
+  def(f, E_CCHARP, g_conc[E_CCHARP], C_STR | C_NONE, C_STR);        // 'z'
+  def(f, E_STRING, g_conc[E_STRING], C_STR, C_STR);                 // PyUnicode_AsUTF8AndSize / 's#'
+  def(f, E_CSTRREF, g_conc[E_CSTRREF], C_STR, C_STR);
+  def(f, E_CLSP, g_conc[E_CLSP], INST, INST);                       // DTOOL_Call_GetPointerThisClass: Cls and subclasses
+  def(f, E_CCLSREF, g_conc[E_CCLSREF], INST, INST);
+  def(f, E_CLSVAL, g_conc[E_CLSVAL], INST, INST);
+  def(f, E_DERP, g_conc[E_DERP], C_DER, C_DER);
+  def(f, E_INTP, g_conc[E_INTP], C_BYTES, C_BYTES);                 // PyObject_GetBuffer
+}
+static NOINL void build_universe() {
+  build_concrete();
+  // TypeManager caches the parser's basic_string types in function-local statics: their first use must not happen under a
+  // symbolic path condition (the cached pointer would become symbolic and every virtual call on it fans out)
+  (void)get_type_sort(g_string_type);
+  build_family(&FX, "TX");
+  build_family(&FY, "TY");
 }
 
 // a (tried first) must come before b: some argument category belongs to a and b takes it only by conversion, or a is the
 // strictly more specific home (derived class before base class)
-static inline bool must_before(int ha, int aa, int hb, int ab) {
-  (void)aa;
+static inline bool must_before(int ha, int hb, int ab) {
   if (ha & ab & ~hb) return true;
   if (ha != 0 && ha != hb && (ha & ~hb) == 0) return true;
   return false;
@@ -133,104 +205,124 @@ static inline bool must_before(int ha, int aa, int hb, int ab) {
 // ---- (d1) get_type_sort on every type of the universe, the oracle on a SYMBOLIC pair ---------------------------------
 extern "C" void harness_c02_type_rank() {
   build_universe();
-  int rank[NT];
-  for (int t = 0; t < NT; t++) rank[t] = get_type_sort(U[t]);      // the real classification (concrete type objects)
+  int rx[NE], ry[NE];
+  for (int e = 0; e < NE; e++) rx[e] = get_type_sort(FX.type[e]);      // the real classification
+  for (int e = 0; e < NE; e++) ry[e] = (e < NFAM) ? get_type_sort(FY.type[e]) : rx[e];
 
   unsigned a = nondet_uint(), b = nondet_uint();
-  ASSUME(a < NT && b < NT);
-  int ha = HOME[a], aa = ACC[a], hb = HOME[b], ab = ACC[b];
-  ASSERT(!(must_before(ha, aa, hb, ab) && must_before(hb, ab, ha, aa)), "C02 model: the acceptance oracle is not contradictory");
-  if (must_before(ha, aa, hb, ab))
-    ASSERT(rank[a] > rank[b],
+  ASSUME(a < NE && b < NE);
+  int ha = FX.home[a], aa = FX.acc[a], hb = FY.home[b], ab = FY.acc[b], ra = rx[a], rb = ry[b];
+  ASSERT(!(must_before(ha, hb, ab) && must_before(hb, ha, aa)), "C02 model: the acceptance oracle is not contradictory");
+  if (must_before(ha, hb, ab))
+    ASSERT(ra > rb,
            "C02 get_type_sort: an overload that accepts an argument category only by conversion is tried after the overload that category belongs to (int before double, derived before base, str before char*/None ...)");
-  bool a_bool = (a == T_BOOL || a == T_CBOOL || a == T_TDBOOL), b_bool = (b == T_BOOL || b == T_CBOOL || b == T_TDBOOL);
+  if (must_before(hb, ha, aa))
+    ASSERT(rb > ra,
+           "C02 get_type_sort: an overload that accepts an argument category only by conversion is tried after the overload that category belongs to (symmetric case)");
+  bool a_bool = (a < NFAM && FX.simple->_type == CPPSimpleType::T_bool), b_bool = (b < NFAM && FY.simple->_type == CPPSimpleType::T_bool);
   if (a_bool && !b_bool)
-    ASSERT(rank[b] > rank[a], "C02 get_type_sort: a bool parameter (PyObject_IsTrue accepts every object) is tried after every other parameter type");
+    ASSERT(rb > ra, "C02 get_type_sort: a bool parameter (PyObject_IsTrue accepts every object) is tried after every other parameter type");
   if (a_bool && b_bool)
-    ASSERT(rank[a] == rank[b], "C02 get_type_sort: bool, const bool and a typedef of bool rank alike");
-  ASSERT(rank[a] > 0, "C02 get_type_sort: every type of the universe is classified");
+    ASSERT(ra == rb, "C02 get_type_sort: bool, const bool and a typedef of bool rank alike");
+  ASSERT(ra > 0, "C02 get_type_sort: every type of the universe is classified");
   WITNESS();
 }
 
-// ---- (d2) the dispatch order of an overload set: real RemapCompareLess + std::sort ---------------------------------
-#ifndef NOV
-#define NOV 2            // overloads in the set
-#endif
+// ---- (d2) the dispatch order of an overload pair: real RemapCompareLess (+ std::sort) ---------------------------------
 #ifndef NPAR
-#define NPAR 1           // parameters per overload; with 2 the FIRST parameter has the same type in every overload
+#define NPAR 1           // parameters per overload; with 2 the FIRST parameter has the same type in every overload (nullptr_t: the
+                         // first test of get_type_sort, which keeps the run short; the comparator only sees equal ranks there)
 #endif
-#ifndef A_FROM
-#define A_FROM 0
+#ifndef PART
+#define PART 3           // bit 0: pairs with a symbolic fundamental type (comparator called directly); bit 1: concrete pairs through std::sort
 #endif
-#ifndef A_TO
-#define A_TO NT
-#endif
-#ifndef CORE_ONLY
-#define CORE_ONLY 0
-#endif
-static const int CORE[] = {T_BOOL, T_INT, T_LLONG, T_DOUBLE, T_FLOAT, T_CCHARP, T_CSTRREF, T_CLSP, T_DERP, T_SENUM};
-#define NCORE ((int)(sizeof(CORE) / sizeof(CORE[0])))
 
 static NOINL FunctionRemap *raw_remap() { return (FunctionRemap *)::operator new(sizeof(FunctionRemap)); }
 static NOINL ParameterRemap *raw_param() { return (ParameterRemap *)::operator new(sizeof(ParameterRemap)); }
-static FunctionRemap *OV[3];
-static int ov_type[3];
+static FunctionRemap *OV[2];
 
-static NOINL void set_type(int o, int t) {
-  ov_type[o] = t;
-  OV[o]->_parameters[NPAR - 1]._remap->_orig_type = U[t];
+static NOINL void set_types(int a, int b) {
+  OV[0]->_parameters[NPAR - 1]._remap->_orig_type = FX.type[a];
+  OV[1]->_parameters[NPAR - 1]._remap->_orig_type = FY.type[b];
 }
 
-static NOINL void dispatch_case() {
+// a pair with symbolic type content: the comparator's answer is symbolic, so it is called directly (std::sort's unguarded
+// insertion loop relies on the comparator repeating its answer, which symbolic execution cannot see: it runs off the array)
+static NOINL void compare_case(int a, int b) {
+  set_types(a, b);
+  bool lt01 = RemapCompareLess(OV[0], OV[1]), lt10 = RemapCompareLess(OV[1], OV[0]);
+  ASSERT(!(lt01 && lt10), "C02 RemapCompareLess on real parameter types is asymmetric");
+  int ha = FX.home[a], aa = FX.acc[a], hb = FY.home[b], ab = FY.acc[b];
+  if (must_before(ha, hb, ab))
+    ASSERT(lt01, "C02 dispatch order: the overload an argument category belongs to sorts before an overload that merely converts it (bool last, int before double, None before char* ...)");
+  if (must_before(hb, ha, aa))
+    ASSERT(lt10, "C02 dispatch order: the overload an argument category belongs to sorts before an overload that merely converts it (second overload)");
+}
+
+// an overload set of NSET concrete parameter types through std::sort, as write_function_forset does; two input orders
+#define NSET 10
+static FunctionRemap *SET[NSET];
+static int set_acc[NSET], set_home[NSET];
+static NOINL void sort_case(int reversed) {
   std::vector<FunctionRemap *> remaps;
-  remaps.reserve(NOV);
-  for (int o = 0; o < NOV; o++) remaps.push_back(OV[o]);
-  std::sort(remaps.begin(), remaps.end(), RemapCompareLess);      // as write_function_forset does
-  int pos[3];
-  for (int o = 0; o < NOV; o++) {
-    pos[o] = -1;
-    for (int k = 0; k < NOV; k++) if (remaps[k] == OV[o]) pos[o] = k;
-    ASSERT(pos[o] >= 0, "C02 std::sort with RemapCompareLess keeps every overload of the set");
+  remaps.reserve(NSET);
+  for (int k = 0; k < NSET; k++) remaps.push_back(SET[reversed ? NSET - 1 - k : k]);
+  std::sort(remaps.begin(), remaps.end(), RemapCompareLess);
+  int pos[NSET];
+  for (int e = 0; e < NSET; e++) {
+    pos[e] = -1;
+    for (int k = 0; k < NSET; k++) if (remaps[k] == SET[e]) pos[e] = k;
+    ASSERT(pos[e] >= 0, "C02 std::sort with RemapCompareLess keeps every overload of the set");
   }
-  for (int x = 0; x < NOV; x++)
-    for (int y = 0; y < NOV; y++) {
-      if (x == y || OV[x]->_const_method != OV[y]->_const_method) continue;
-      int tx = ov_type[x], ty = ov_type[y];
-      if (must_before(HOME[tx], ACC[tx], HOME[ty], ACC[ty]))
-        ASSERT(pos[x] < pos[y],
-               "C02 dispatch order: the overload an argument category belongs to is tried before an overload that merely converts it (bool last, int before double, derived before base)");
-    }
+  for (int x = 0; x < NSET; x++)
+    for (int y = 0; y < NSET; y++)
+      if (must_before(set_home[x], set_home[y], set_acc[y]))
+        ASSERT(pos[x] < pos[y], "C02 dispatch order: the overload an argument category belongs to is tried before an overload that merely converts it (bool last, int before double, derived before base, str before char*/None)");
+}
+
+static NOINL FunctionRemap *make_overload(CPPType *type) {
+  FunctionRemap *r = raw_remap();
+  new (&r->_parameters) FunctionRemap::Parameters();
+  r->_const_method = false;               // const-ness: c02_remap_compare
+  r->_parameters.reserve(NPAR);
+  for (int x = 0; x < NPAR; x++) {
+    ParameterRemap *pr = raw_param();
+    pr->_orig_type = (x == NPAR - 1) ? type : g_first;
+    r->_parameters.emplace_back();
+    r->_parameters[x]._remap = pr;
+  }
+  return r;
 }
 
 extern "C" void harness_c02_dispatch_order() {
   build_universe();
-  bool all_const = nondet_bool();
-  for (int o = 0; o < NOV; o++) {
-    FunctionRemap *r = raw_remap();
-    OV[o] = r;
-    new (&r->_parameters) FunctionRemap::Parameters();
-    r->_const_method = (NOV >= 3 && o == 2) ? nondet_bool() : all_const;
-    r->_parameters.reserve(NPAR);
-    for (int x = 0; x < NPAR; x++) {
-      ParameterRemap *pr = raw_param();
-      pr->_orig_type = U[T_INT];
-      r->_parameters.emplace_back();
-      r->_parameters[x]._remap = pr;
+#if PART & 1
+  OV[0] = make_overload(nullptr);
+  OV[1] = make_overload(nullptr);
+  // the plain X type against every Y entry (Y-family against concrete types is the same by symmetry of X and Y), and the
+  // wrapped shapes against each other (every shape x shape pair is ranked in c02_type_rank; this harness adds the comparator)
+  for (int b = 0; b < NE; b++)
+    compare_case(E_VAL, b);
+  compare_case(E_CONST, E_TYPEDEF);
+  compare_case(E_TYPEDEF, E_CONST);
+#endif
+#if PART & 2
+  // bool, int, double (fresh concrete objects) and 7 compound types; listed roughly in ascending rank (worst case for the
+  // insertion sort), then reversed
+  static const int PICK[NSET - 3] = {E_INTP, E_SENUM, E_CCHARP, E_CSTRREF, E_CLSP, E_CCLSREF, E_DERP};
+  int n = 0;
+  SET[n] = make_overload(new CPPSimpleType(CPPSimpleType::T_bool)); simple_kind(CPPSimpleType::T_bool, 0, &set_acc[n], &set_home[n]); n++;
+  for (int k = 0; k < NSET - 3; k++, n++) {
+    SET[n] = make_overload(g_conc[PICK[k]]); set_acc[n] = FX.acc[PICK[k]]; set_home[n] = FX.home[PICK[k]];
+    if (k == 0) {
+      n++;
+      SET[n] = make_overload(new CPPSimpleType(CPPSimpleType::T_double)); simple_kind(CPPSimpleType::T_double, 0, &set_acc[n], &set_home[n]);
+      n++;
+      SET[n] = make_overload(new CPPSimpleType(CPPSimpleType::T_int)); simple_kind(CPPSimpleType::T_int, 0, &set_acc[n], &set_home[n]);
     }
   }
-#if NOV == 2
-  for (int a = A_FROM; a < A_TO; a++)
-    for (int b = 0; b < NT; b++) {          // ordered pairs: both input orders of every pair reach std::sort
-      set_type(0, a); set_type(1, b);
-      dispatch_case();
-    }
-#else
-  for (int a = A_FROM; a < A_TO && a < NCORE; a++)
-    for (int b = 0; b < NCORE; b++)
-      for (int c = 0; c < NCORE; c++) {
-        set_type(0, CORE[a]); set_type(1, CORE[b]); set_type(2, CORE[c]);
-        dispatch_case();
-      }
+  sort_case(0);
+  sort_case(1);
 #endif
   WITNESS();
 }
